@@ -60,7 +60,12 @@ OPTIONAL_ENTITIES = {">": ("&gt;", ord(">")), "'": ("&apos;", ord("'"), "&#39;",
 
 
 ESC_PROBES = [chr(c) for c in range(32, 127)] + ["", "\u00e9", "\u65e5\u672c", "a&b<c>\"d'e", "&&", "x\"", "\"x", "<<>>", "a/b?c=d&e=f",
-              "\u00e9&\u65e5<", "&amp;", "data:image/svg+xml;utf8,<svg xmlns=\"x\">&</svg>", "''", "tail&"]
+              "\u00e9&\u65e5<", "&amp;", "data:image/svg+xml;utf8,<svg xmlns=\"x\">&</svg>", "''", "tail&",
+              # the documented uses of the image option: base64 data URIs (with quoted media-type parameters and with text after
+              # the payload), http(s) URLs with query strings, file paths
+              "data:image/png;base64,iVBORw0KGgo=", "data:image/svg+xml;charset=\"utf-8\";base64,PHN2Zz4=",
+              "data:image/png;name=\"a&b <c>.png\";base64,AAAA", "data:image/png;base64,AAAA\"/><image href=\"x",
+              "https://example.com/logo.png?a=1&b=\"2\"", "http://x/<y>", "C:\\dir\\a&b.png", "./img/\"quoted\".svg"]
 
 
 def _xml_unescape_strict(out):
@@ -91,16 +96,16 @@ def pe_classify_escaper(f, path):
     the result must decode back to the input and contain no raw & < ".  -> ('ok' | 'broken' | None, detail)"""
     from . import peval
     raw = f.fns.get(path)
-    if not raw or raw.get("inputs") != ["&str"] or raw.get("output") not in ("std::string::String",):
+    if not raw or raw.get("inputs") != ["&str"] or raw.get("output") not in ("std::string::String", "std::borrow::Cow<'_, str>", "&str"):
         return None, None
     bad = {}
     entities = 0
     for probe in ESC_PROBES:
         pe = peval.PEval(f, max_steps=200000)
         r = pe.run(path, [("ref", ("const", ("str", probe)))])
-        if r.kind != "ret" or r.value == TOP or r.value[0] != "string" or not all(isinstance(x, int) for x in r.value[1]):
+        out = peval._pystr(pe, None, r.value) if r.kind == "ret" and r.value != TOP else None
+        if out is None:
             return None, "%s on %r" % (r.why or r.kind, probe)
-        out = "".join(chr(c) for c in r.value[1])
         if "&" in out and out != probe:
             entities += 1
         if _xml_unescape_strict(out) != probe:
@@ -181,7 +186,18 @@ def c12_r1(ctx, f):
     broken = broken_sanitisers(f)
     for c in fn.calls():
         if c.callee in broken:
+            probes = {k: v for k, v in broken[c.callee].items() if isinstance(k, str) and len(k) > 1 and k != "ordinary"}
+            if probes:
+                # found by evaluating the escaper on whole probe strings: one report, first probe shown
+                k0 = sorted(probes)[0]
+                ctx.fail(rid, "%s/escaper/probe-strings" % c.callee, c.where(), c.callee,
+                         "%d probe string(s), e.g. %r" % (len(probes), k0),
+                         "the attribute escaper returns text that does not decode back to its input or still holds a raw \" < &: an image "
+                         "string of this form yields an ill-formed document or injected markup",
+                         expected="every & < \" (and ' >) replaced by its entity", found=probes[k0])
             for ch, got in sorted(broken[c.callee].items(), key=str):
+                if ch in probes:
+                    continue
                 ctx.fail(rid, "%s/escaper/%s" % (c.callee, "ordinary" if ch == "ordinary" else "U+%04X" % ord(ch)), c.where(), c.callee,
                          "character %r" % ch,
                          "the attribute escaper maps this character to %r: not a predefined XML entity / not the character itself, so an image "
@@ -202,7 +218,7 @@ def c12_r1(ctx, f):
         ctx.abstain(rid, "image string passes through unrecognised string function(s) %s before reaching the document" %
                     sorted({(t.get("callee") or t.get("declared")) for t in unknown}), where_fn(fn))
     else:
-        used = [c for c in fn.calls() if c.callee in san]
+        used = [c for c in fn.calls() if c.callee in san or c.callee in broken]
         ctx.check(rid, bool(used), fn.path + "/href", where_fn(fn), fn.path, "image string -> returned markup",
                   "the image string no longer reaches the document at all (image would be dropped)",
                   sample="image -> %s -> href" % (used[0].callee if used else "?"))
